@@ -537,3 +537,176 @@ Theorem C20_graph_reach_all_shape : forall t lbl G heads eqv S ins,
   reach_all t lbl G heads eqv S ins -> heads_exact t G heads /\ desc_ok G.
 Proof. exact reach_all_shape. Qed.
 Print Assumptions C20_graph_reach_all_shape.
+
+(* ---- UNBOUNDED: the mirror's top-level import function performs exactly the abstract reach_all
+   steps (C20/GraphImport.v); this is the general statement behind C20_graph_mirror_small_scope
+   for the vote graph (weights + structure invariants; the memoised ghost/estimate fields are
+   covered by GraphGhost.v and the small-scope theorem).
+   One import (Round.importPrevote / importPrecommit, any vote, any state that is a reach_all
+   state whose histories are S 0 / S 1) is one reach_all step -- or no step at all for a voter
+   outside the voter set -- and appends the vote to the phase's history iff the voter is known. *)
+From C20 Require Import GraphImport.
+
+Theorem C20_graph_import_is_reach_all_step : forall t lbl ws ph x s S ins, (ph < 2)%nat ->
+  reach_all t lbl (r_G s) (r_heads s) (r_eqv s) S ins -> S 0%nat = r_pv s -> S 1%nat = r_pc s ->
+  let s' := import t lbl ws ph x s in
+  exists S' ins',
+    reach_all t lbl (r_G s') (r_heads s') (r_eqv s') S' ins' /\ S' 0%nat = r_pv s' /\ S' 1%nat = r_pc s' /\
+    (forall p, S' p = if (known_voter ws x && Nat.eqb p ph)%bool then S p ++ [x] else S p).
+Proof. exact import_step_flat. Qed.
+Print Assumptions C20_graph_import_is_reach_all_step.
+
+(* the vote tracker (Model.stored: what voteTracker holds for a voter) against the specification's
+   predicates over the phase's history *)
+Theorem C20_graph_tracker_cases : forall v h,
+  match stored v h [] with
+  | [] => voted h v = false
+  | [a] => first_vote h v = Some a /\ equivocates h v = false
+  | _ => equivocates h v = true
+  end.
+Proof. exact stored_cases. Qed.
+Print Assumptions C20_graph_tracker_cases.
+
+(* the votes of voters outside the voter set weigh nothing in the specification *)
+Theorem C20_weight_ignores_unknown_voters : forall t ws S b,
+  weight t ws (filter (known_voter ws) S) b = weight t ws S b.
+Proof. exact weight_known. Qed.
+Print Assumptions C20_weight_ignores_unknown_voters.
+
+(* THE GENERAL STATEMENT.  For every tree (every list of parents is a tree; blocks outside it are
+   children of the base), every hash order, every weighted voter set and EVERY history of
+   (phase, vote) operations with phase tags 0/1 -- any order, duplicates, equivocations, voters
+   outside the set -- folded through the mirror's step (import, then PrecommitGHOST: exactly the
+   fold of C20_graph_mirror_small_scope) from the initial round:
+     - the histories kept are the votes of known voters of each phase, in import order;
+     - the state is a reach_all state, so full_inv (chain_inv, cum_ok, anc_wf, base, votes on
+       vote-nodes, heads_cover), tracker_ok in both phases, heads_exact and desc_ok hold;
+     - every vote-node carries the specification's Votes.weight of ALL the votes of the phase
+       imported so far, in both phases.
+   Every prefix of a history is a history, so this holds after every import. *)
+Theorem C20_graph_import_run_weights : forall t lbl ws (h : list (nat * vote)),
+  (forall o, In o h -> (fst o < 2)%nat) ->
+  let s := fold_left (fun st o => step_op t lbl ws (fst o) (snd o) st) h rinit in
+  let votes ph := map snd (filter (fun o => Nat.eqb (fst o) ph) h) in
+  r_pv s = filter (known_voter ws) (votes 0%nat) /\ r_pc s = filter (known_voter ws) (votes 1%nat) /\
+  (exists S ins,
+     reach_all t lbl (r_G s) (r_heads s) (r_eqv s) S ins /\ S 0%nat = r_pv s /\ S 1%nat = r_pc s /\
+     full_inv t (r_G s) (r_heads s) ins /\
+     (forall ph, (ph < 2)%nat -> tracker_ok t ph (S ph) (r_eqv s) ins)) /\
+  heads_exact t (r_G s) (r_heads s) /\ desc_ok (r_G s) /\
+  (forall y e, eget y (r_G s) = Some e ->
+     bits_weight ws (g_cum e) (r_eqv s) 0 = weight t ws (votes 0%nat) y /\
+     bits_weight ws (g_cum e) (r_eqv s) 1 = weight t ws (votes 1%nat) y).
+Proof. exact import_run_weights. Qed.
+Print Assumptions C20_graph_import_run_weights.
+
+(* non-vacuity: append, introduceBranch (split), append on a fork, duplicate, equivocation, ignored
+   vote of an equivocator, voter outside the set, precommits (existing node, equivocation), and a
+   vote for a block outside the listed tree *)
+Example C20_graph_import_run_example :
+  let t := [0; 1; 0]%nat in let ws := [2; 1; 1; 1]%N in
+  let h := [(0, mkVote 0 2 0); (0, mkVote 1 1 0); (0, mkVote 2 3 0); (0, mkVote 1 1 0);
+            (0, mkVote 1 2 0); (0, mkVote 1 3 0); (0, mkVote 9 2 0); (1, mkVote 0 1 0);
+            (1, mkVote 3 2 0); (1, mkVote 3 3 0); (0, mkVote 3 7 0)]%nat in
+  let s := run t (fun b => b) ws h in     (* run = the fold of C20_graph_import_run_weights *)
+  (forall o, In o h -> (fst o < 2)%nat) /\
+  map fst (r_G s) = [0; 2; 1; 3; 7]%nat /\ r_heads s = [2; 3; 7]%nat /\ r_eqv s = [7; 2]%nat /\
+  length (r_pv s) = 7%nat /\ length (votes_of 0 h) = 8%nat /\ length (r_pc s) = 3%nat /\
+  map (fun p => (fst p, bits_weight ws (g_cum (snd p)) (r_eqv s) 0, bits_weight ws (g_cum (snd p)) (r_eqv s) 1))
+      (r_G s) = [(0%nat, 5%N, 3%N); (2%nat, 3%N, 1%N); (1%nat, 3%N, 3%N); (3%nat, 2%N, 1%N); (7%nat, 2%N, 1%N)].
+Proof. exact import_run_example. Qed.
+
+(* ---- FindGHOST of the vote-graph mirror against the specification (coq/C20/GraphGhost.v) ---- *)
+From C20 Require Import GraphGhost.
+Local Close Scope N_scope.
+Theorem C20_graph_find_ghost_sound : forall t lbl ws G ins ph S eqv heads current b,
+  cum_ok t G ins -> anc_wf t G -> tracker_ok t ph S eqv ins ->
+  find_ghost t lbl G heads current (cond_ph ws eqv ph) = Some b ->
+  forall a, anc t a b -> has_supermajority t ws S a = true.
+Proof.
+  intros t lbl ws G ins ph S eqv heads current b CO W TR H a A.
+  exact (find_ghost_sound_ancestors t lbl ws G ins ph S eqv CO W TR heads current b a H A).
+Qed.
+Print Assumptions C20_graph_find_ghost_sound.
+
+Theorem C20_graph_find_ghost_on_spec_ghost_chain : forall t lbl ws G ins ph S eqv heads current b,
+  cum_ok t G ins -> anc_wf t G -> tracker_ok t ph S eqv ins ->
+  (0 < total ws)%N -> tolerant ws S = true -> (forall x, In x S -> in_tree t (vblock x)) ->
+  find_ghost t lbl G heads current (cond_ph ws eqv ph) = Some b ->
+  exists g, ghost t ws S = Some g /\ anc t b g.
+Proof.
+  intros t lbl ws G ins ph S eqv heads current b CO W TR.
+  exact (find_ghost_below_spec_ghost t lbl ws G ins ph S eqv CO W TR heads current b).
+Qed.
+Print Assumptions C20_graph_find_ghost_on_spec_ghost_chain.
+
+Theorem C20_graph_find_ghost_none_iff : forall t lbl ws G ins ph S eqv heads,
+  cum_ok t G ins -> tracker_ok t ph S eqv ins -> (exists e0, eget 0%nat G = Some e0) ->
+  (find_ghost t lbl G heads None (cond_ph ws eqv ph) = None <-> ghost t ws S = None).
+Proof.
+  intros t lbl ws G ins ph S eqv heads CO TR.
+  exact (find_ghost_none_iff t lbl ws G ins ph S eqv CO TR heads).
+Qed.
+Print Assumptions C20_graph_find_ghost_none_iff.
+
+Theorem C20_graph_find_ghost_is_spec_ghost : forall t lbl ws G ins ph S eqv heads,
+  chain_inv t G -> cum_ok t G ins -> anc_wf t G -> tracker_ok t ph S eqv ins ->
+  (exists e0, eget 0%nat G = Some e0) ->
+  (forall p, In p ins -> exists e, eget (fst p) G = Some e) ->
+  desc_complete G -> desc_sound G ->
+  (0 < total ws)%N -> tolerant ws S = true -> (forall x, In x S -> in_tree t (vblock x)) ->
+  find_ghost t lbl G heads None (cond_ph ws eqv ph) = ghost t ws S.
+Proof. exact find_ghost_is_spec_ghost. Qed.
+Print Assumptions C20_graph_find_ghost_is_spec_ghost.
+
+(* Insert keeps "g_desc lists exactly the child vote-nodes" on all three paths *)
+Theorem C20_graph_reach_full_desc_exact : forall t lbl G heads eqv S ins,
+  reach_full t lbl G heads eqv S ins -> desc_exact G.
+Proof. exact reach_full_desc_exact. Qed.
+Print Assumptions C20_graph_reach_full_desc_exact.
+
+Theorem C20_graph_reach_full_find_ghost_is_spec_ghost : forall t lbl ws G heads eqv S ins ph,
+  reach_full t lbl G heads eqv S ins -> (ph < 2)%nat ->
+  (0 < total ws)%N -> tolerant ws (S ph) = true -> (forall x, In x (S ph) -> in_tree t (vblock x)) ->
+  find_ghost t lbl G heads None (cond_ph ws eqv ph) = ghost t ws (S ph).
+Proof. exact reach_full_find_ghost_is_spec_ghost. Qed.
+Print Assumptions C20_graph_reach_full_find_ghost_is_spec_ghost.
+
+Theorem C20_graph_reach_full_find_ghost_from_node : forall t lbl ws G heads eqv S ins ph c ec,
+  reach_full t lbl G heads eqv S ins -> (ph < 2)%nat ->
+  (0 < total ws)%N -> tolerant ws (S ph) = true -> (forall x, In x (S ph) -> in_tree t (vblock x)) ->
+  eget c G = Some ec ->
+  find_ghost t lbl G heads (Some c) (cond_ph ws eqv ph) =
+  if has_supermajority t ws (S ph) c then ghost t ws (S ph) else None.
+Proof. exact reach_full_find_ghost_from_node. Qed.
+Print Assumptions C20_graph_reach_full_find_ghost_from_node.
+
+(* the restart from the previous ghost c (any block that still has a supermajority) *)
+Theorem C20_graph_reach_full_find_ghost_restart : forall t lbl ws G heads eqv S ins ph c,
+  reach_full t lbl G heads eqv S ins -> (ph < 2)%nat ->
+  (0 < total ws)%N -> tolerant ws (S ph) = true -> (forall x, In x (S ph) -> in_tree t (vblock x)) ->
+  has_supermajority t ws (S ph) c = true ->
+  find_ghost t lbl G heads (Some c) (cond_ph ws eqv ph) = ghost t ws (S ph).
+Proof. exact reach_full_find_ghost_restart. Qed.
+Print Assumptions C20_graph_reach_full_find_ghost_restart.
+
+(* the memoised ghost fed back as [current] (prevoteGhost in importPrevote, precommitGhost in
+   PrecommitGHOST) stays the specification's ghost *)
+Theorem C20_graph_reach_full_ghost_memo_step : forall t lbl ws G heads eqv S ins ph prev V0,
+  reach_full t lbl G heads eqv S ins -> (ph < 2)%nat ->
+  (0 < total ws)%N -> tolerant ws (S ph) = true -> (forall x, In x (S ph) -> in_tree t (vblock x)) ->
+  subset V0 (S ph) -> prev = ghost t ws V0 ->
+  (if (th ws <=? cur_weight ws (S ph))%N then find_ghost t lbl G heads prev (cond_ph ws eqv ph) else prev)
+  = ghost t ws (S ph).
+Proof. exact reach_full_ghost_memo_step. Qed.
+Print Assumptions C20_graph_reach_full_ghost_memo_step.
+
+Theorem C20_graph_precommit_ghost_is_spec_ghost : forall t lbl ws s S ins V0,
+  reach_full t lbl (r_G s) (r_heads s) (r_eqv s) S ins -> r_pc s = S 1%nat ->
+  (0 < total ws)%N -> tolerant ws (r_pc s) = true -> (forall x, In x (r_pc s) -> in_tree t (vblock x)) ->
+  subset V0 (r_pc s) -> r_pcg s = ghost t ws V0 ->
+  r_pcg (precommit_ghost t lbl ws s) = ghost t ws (r_pc s).
+Proof. exact precommit_ghost_is_spec_ghost. Qed.
+Print Assumptions C20_graph_precommit_ghost_is_spec_ghost.
+
+Local Open Scope N_scope.
